@@ -1071,9 +1071,14 @@ class Evaluator:
 
   def ev_index(self, sl, scope):
     if isinstance(sl, ast.Slice):
-      return T('slice', self.ev(sl.lower, scope) if sl.lower else NONE,
-               self.ev(sl.upper, scope) if sl.upper else NONE,
-               self.ev(sl.step, scope) if sl.step else NONE)
+      lo = self.ev(sl.lower, scope) if sl.lower else NONE
+      st_ = self.ev(sl.step, scope) if sl.step else NONE
+      # x[0:n] is x[:n], x[a:b:1] is x[a:b]
+      if is_const(lo) and cval(lo) == 0 and not isinstance(cval(lo), bool):
+        lo = NONE
+      if is_const(st_) and cval(st_) == 1 and not isinstance(cval(st_), bool):
+        st_ = NONE
+      return T('slice', lo, self.ev(sl.upper, scope) if sl.upper else NONE, st_)
     if isinstance(sl, ast.Tuple):
       return T('tuple', *[self.ev_index(e, scope) for e in sl.elts])
     return self.ev(sl, scope)
@@ -1082,6 +1087,8 @@ class Evaluator:
     return self.ev_index(n, scope)
 
   def subscript(self, base, idx, n=None):
+    if idx.op == 'slice' and all(is_const(x, None) for x in idx.args) and base.op in ('elem', 'call', 'sub', 'zipped'):
+      return base                     # x[:] of an immutable value is x
     if base.op == 'ext' and base.args[0] in ('numpy.s_', 'numpy.index_exp', 'jax.numpy.s_', 'jax.numpy.index_exp'):
       return idx                      # np.s_[a:b, c] is the index object itself
     if base.op in ('tuple', 'list'):
@@ -1582,6 +1589,14 @@ class Evaluator:
         st['pos'] += 1
         return st['items'][st['pos'] - 1]
       return None
+    if name == 'slice' and 1 <= len(a) <= 3 and not kwargs:
+      # slice(b) / slice(a, b) / slice(a, b, c): the slice object x[a:b:c] uses
+      lo, hi, st_ = (NONE, a[0], NONE) if len(a) == 1 else (a[0], a[1], a[2] if len(a) == 3 else NONE)
+      if is_const(lo) and cval(lo) == 0 and not isinstance(cval(lo), bool):
+        lo = NONE
+      if is_const(st_) and cval(st_) == 1 and not isinstance(cval(st_), bool):
+        st_ = NONE
+      return T('slice', lo, hi, st_)
     if name == 'dict' and '**' not in kwargs and (not a or (len(a) == 1 and a[0].op == 'dict')):
       # dict(k=v, ...) / dict(d, k=v) is the literal {**d, 'k': v}
       items = [kv for kv in (a[0].args if a else ()) if not (is_const(kv[0]) and cval(kv[0]) in kwargs)]
